@@ -74,7 +74,7 @@ impl Limits {
                 max_history: 50,
             },
             Engine::B => Limits {
-                max_threads: 6,
+                max_threads: 12,
                 max_execs_per_thread: 30,
                 max_total_execs: 120,
                 max_programs: 12,
